@@ -242,7 +242,8 @@ fn corpus_run(w: &mut World) {
         w.exec(json!({"op":"assert.eq","a":s("pt"),"b":s("msg"),"property":"C19","oracle":"O19.4-openssl-ciphertext","entry":"corpus","class":"openssl","what":"OpenSSL GM/T 0009 ciphertext does not decrypt to the message"}));
         // signatures (C03's completeness oracle rides along in sm2.verify)
         w.exec(set(&s("sig"), &hex::decode(it["sig"].as_str().unwrap()).unwrap()));
-        w.exec(json!({"op":"sm2.verify","impl":"lib","pk":s("pk"),"id":Value::Null,"msg":s("msg"),"sig":s("sig")}));
+        w.exec(set(&s("id0"), b""));
+        w.exec(json!({"op":"sm2.verify","impl":"lib","pk":s("pk"),"id":s("id0"),"msg":s("msg"),"sig":s("sig")}));
         w.exec(set(&s("id"), it["id"].as_str().unwrap().as_bytes()));
         w.exec(set(&s("sig2"), &hex::decode(it["sig_id"].as_str().unwrap()).unwrap()));
         w.exec(json!({"op":"sm2.verify","impl":"lib","pk":s("pk"),"id":s("id"),"msg":s("msg"),"sig":s("sig2")}));
